@@ -179,7 +179,7 @@ class Walker:
     """
 
     def __init__(self, root, dot=False, icase=False, globstar=False, globstarlong=False, follow=False,
-                 scandotdir=False, matchbase=False, nodir=False, mark=False, extmatchbase=False, maxdepth=10):
+                 scandotdir=False, matchbase=False, nodir=False, mark=False, extmatchbase=False, maxdepth=10, nodotdir=False):
         self.root = root
         self.dot = dot
         self.icase = icase
@@ -188,7 +188,7 @@ class Walker:
         self.follow_flag = follow
         self.follow = follow and not globstarlong
         self.scandotdir = scandotdir
-        self.nodotdir = not scandotdir
+        self.nodotdir = (not scandotdir) or nodotdir
         self.matchbase = matchbase
         self.extmatchbase = extmatchbase
         self.nodir = nodir
@@ -210,7 +210,7 @@ class Walker:
                     try:
                         isdir = e.is_dir()
                     except OSError:
-                        isdir = None
+                        isdir = False      # exists but cannot be resolved (symlink loop): an entry that is not a directory
                     out.append((e.name, isdir, e.is_symlink()))
         except OSError:
             pass
@@ -326,6 +326,10 @@ class Walker:
                     add(child, cert, isdir)
                 if isdir and (not islink or self.follow or long_):
                     walk_gs(i, child, cert, depth + 1, long_, last, first=False)
+                elif isdir and not last:
+                    # a symlinked directory matched by the last position of `**`, with written segments following: Bash
+                    # continues through it, wcmatch does not; the property text does not settle it -> MAY
+                    go(i + 1, child, False, depth + 1)
 
         if segs:
             go(0, '', True, 0)
